@@ -19,7 +19,7 @@ import (
 
 // C10 — expressions parse with XPath 1.0 precedence, associativity and token rules.
 
-const ruleC10 = "enum (exhaustive): every unparenthesised chain o0 op1 o1 ... opk ok over the 14 binary operators (or and = != < <= > >= + - * div mod |), k <= 5 (quick) / 6 (thorough), operands distinct names; plus unary-minus placements (none, -, --) on every operand for k <= 3 and path-tier and primary operands (a/b, //a, a[1], (a)[1]/b, (a)//b, (a)[1]//@b, 1.5, 'a', count(a)) for k <= 2. Oracle (round-trip): the engine's parse-tree dump (verif hook) of the text equals the dump of a table-driven precedence-climbing reference parse (all operators left-associative, unary minus between multiplicative and union). rapid: any expression e from the node-set and scalar generators: dump(engine parse of Render(e)) = Dump(e); for whitespace placements w permitted by the longest-match rule, dump(w(e)) = dump(e) and value(w(e)) = value(e); for the abbreviation expansion x(e) (a -> child::a, @a -> attribute::a, . -> self::node(), .. -> parent::node(), // -> /descendant-or-self::node()/), dump(x(e)) = dump(e) and sequence(x(e)) = sequence(e). Non-trivial: a chain with >= 2 operators (two tiers or two of one tier); a whitespace variant with >= 1 separator removed or replaced; distinct by text."
+const ruleC10 = "enum (exhaustive): every unparenthesised chain o0 op1 o1 ... opk ok over the 14 binary operators (or and = != < <= > >= + - * div mod |), k <= 5 (quick) / 6 (thorough), operands distinct names; plus unary-minus placements (none, -, --) on every operand for k <= 3 and path-tier and primary operands (a/b, //a, a[1], (a)[1]/b, (a)//b, (a)[1]//@b, 1.5, 'a', count(a), p:a, @q:a, a/.., following-sibling::p:a, a/text()) for k <= 2. Oracle (round-trip): the engine's parse-tree dump (verif hook) of the text equals the dump of a table-driven precedence-climbing reference parse (all operators left-associative, unary minus between multiplicative and union). rapid: any expression e from the node-set and scalar generators: dump(engine parse of Render(e)) = Dump(e); for whitespace placements w permitted by the longest-match rule, dump(w(e)) = dump(e) and value(w(e)) = value(e); for the abbreviation expansion x(e) (a -> child::a, @a -> attribute::a, . -> self::node(), .. -> parent::node(), // -> /descendant-or-self::node()/), dump(x(e)) = dump(e) and sequence(x(e)) = sequence(e). Non-trivial: a chain with >= 2 operators (two tiers or two of one tier); a whitespace variant with >= 1 separator removed or replaced; distinct by text."
 
 var (
 	uC10Chains = harness.NewUnit("C10", "enum-operator-chains", ruleC10)
@@ -194,6 +194,23 @@ func TestC10Chains(t *testing.T) {
 		},
 		func(n string) xast.Expr { return &xast.Num{Lit: "1.5"} },
 		func(n string) xast.Expr { return &xast.Str{S: n} },
+		// name tests whose last token is a qualified name, an attribute, an abbreviated or
+		// explicit step: what follows them is an operator NAME (and, or, div, mod) half of the time
+		func(n string) xast.Expr {
+			return &xast.Path{Steps: []interface{}{&xast.Step{Axis: "child", Test: xast.NodeTest{Kind: "name", Prefix: "p", Local: n}, Abbr: true}}}
+		},
+		func(n string) xast.Expr {
+			return &xast.Path{Steps: []interface{}{&xast.Step{Axis: "attribute", Test: xast.NodeTest{Kind: "name", Prefix: "q", Local: n}, Abbr: true}}}
+		},
+		func(n string) xast.Expr {
+			return &xast.Path{Steps: []interface{}{&xast.Step{Axis: "child", Test: xast.NodeTest{Kind: "name", Local: n}, Abbr: true}, &xast.Step{Axis: "parent", Test: xast.NodeTest{Kind: "node"}, Abbr: true}}}
+		},
+		func(n string) xast.Expr {
+			return &xast.Path{Steps: []interface{}{&xast.Step{Axis: "following-sibling", Test: xast.NodeTest{Kind: "name", Prefix: "p", Local: n}}}}
+		},
+		func(n string) xast.Expr {
+			return &xast.Path{Steps: []interface{}{&xast.Step{Axis: "child", Test: xast.NodeTest{Kind: "name", Local: n}, Abbr: true}, &xast.Step{Axis: "child", Test: xast.NodeTest{Kind: "text"}, Abbr: true}}}
+		},
 		func(n string) xast.Expr { return &xast.Call{Name: "count", Args: []xast.Expr{nameStep(n)}} },
 		func(n string) xast.Expr {
 			return &xast.Path{Start: &xast.Group{X: nameStep(n)}, Steps: []interface{}{xast.DSlash{}, &xast.Step{Axis: "child", Test: xast.NodeTest{Kind: "name", Local: "z"}, Abbr: true}}}
